@@ -311,6 +311,16 @@ fn c03_kf_astral_inherits_u0000() {
 }
 
 // ---------------------------------------------------------------------------------------
+// glue in add_lattice_edges: "a lexicon entry matched" includes the user lexicon
+// ---------------------------------------------------------------------------------------
+//@ c03_user_match_counts_as_match {"desc":"at a position where only a user-lexicon entry matches and the first character's category has invoke=0, no unknown word is offered - exactly as if the same row were a system entry (candidate counts per boundary and optimal cost of system {b} + user {ab} equal those of system {b,ab})","bounds":"N=2 \"ab\"; categories with invoke=0 for letters; 2x2 matrix","symbolic":"all costs, ids, matrix","functions":["Tokenizer::add_lattice_edges","UnkHandler::gen_unk_words","Lexicon::common_prefix_iterator"],"fs":2048,"unwind":7,"timeout":1200,"mem_gb":16}
+#[cfg(kani)]
+#[kani::proof]
+fn c03_user_match_counts_as_match() {
+    crate::c08::user_vs_extended(&crate::c08::S_USER0, &crate::c08::S_SYS0)
+}
+
+// ---------------------------------------------------------------------------------------
 // lexicon prefix search
 // ---------------------------------------------------------------------------------------
 const ALPHA: [char; 4] = ['\u{1}', '\u{2}', '\u{3}', '\u{3042}'];
